@@ -111,7 +111,7 @@ def c01_case(draw, tier):
     pc = draw(gen.problem_case(max_shr=6 if not big else 8, max_w=4 if not big else 5, max_props=4 if not big else 5, max_arity=4 if not big else 5, max_points=6000 if not big else 60000))
     cfg = draw(gen.config(pc))
     nv = len(pc["idx"])
-    kind = draw(st.sampled_from(["find_all", "solve_all", "iter", "prefix", "min", "max", "mp_enum", "mp_min", "mp_max"]))
+    kind = draw(st.sampled_from(["find_all", "solve_all", "iter", "prefix", "min", "max", "mp_enum", "mp_min", "mp_max", "again"]))
     case = {"problem": pc, "config": cfg}
     if draw(st.integers(0, 2)) == 0 and len(pc["props"]) > 1:
         case["order"] = list(draw(st.permutations(list(range(len(pc["props"]))))))
